@@ -18,11 +18,11 @@ impl Monitor for C09 {
         vec![gen("states", tier.pick(3_000, 400_000, 3)), gen("joins", tier.pick(1_500, 150_000, 2)), gen("single-channel", 9 * 3 * 16 * tier.pick(1, 10, 0))]
     }
     fn rule(&self) -> String {
-        "states: a channel-plan state is reached by a history over {LinkADRReq (DR x power x ChMaskCntl x mask patterns, blocks), NewChannelReq create/delete, DlChannelReq, CFList via OTAA, set_datarate, bursts of silent uplinks for ADR back-off, join bias}; the history is re-run from scratch for 16 scripted RNG start values and in the reached state one uplink is made for every scripted RNG start value 0..127, so every possible channel choice is observed. joins: join attempts (incl. biases, re-joins after CFList/LinkADR) for every RNG start value. Every TxConfig handed to the radio is judged against the snapshot taken immediately before the call and the regional tables. Class = (region, plan-state hash, frame kind, chosen channel).".into()
+        "states: a channel-plan state is reached by a history over {LinkADRReq (DR x power x ChMaskCntl x mask patterns, blocks), NewChannelReq create/delete, DlChannelReq, CFList via OTAA, re-joins from the joined state (accept without or with CFList), set_datarate, bursts of silent uplinks for ADR back-off, join bias}; the history is re-run from scratch for 16 scripted RNG start values and in the reached state one uplink is made for every scripted RNG start value 0..127, so every possible channel choice is observed. joins: join attempts (incl. biases, re-joins after CFList/LinkADR) for every RNG start value. Every TxConfig handed to the radio is judged against the snapshot taken immediately before the call and the regional tables. Class = (region, plan-state hash, frame kind, chosen channel).".into()
     }
     fn assumptions(&self) -> Vec<String> {
         vec![
-            "power bound = min(radio maximum, regional MaxEIRP - antenna gain, level last commanded by an acknowledged LinkADRReq); MaxEIRP per RP002 (EU868/AS923 16, EU433 12.15, IN865/US915/AU915 30 dBm)".into(),
+            "power bound = min(radio maximum, regional MaxEIRP - antenna gain, level last commanded by an acknowledged LinkADRReq of the current session; join requests: the first two only); MaxEIRP per RP002 (EU868/AS923 16, EU433 12.15, IN865/US915/AU915 30 dBm)".into(),
             "fixed-plan joins may use any of the 72 plan channels; AU915 125 kHz join rate DR0 (1.0.2/1.0.3) or DR2 (RP002) accepted, 500 kHz join channels mandate SF8/500 kHz".into(),
             "dynamic plans: only 'LoRa rate the region defines' is required of the data rate (per-channel DR ranges are not part of the statement)".into(),
             "board max power <= 30 dBm, |antenna gain| <= 10 dB; set_datarate only with LoRa uplink rates of the region".into(),
@@ -32,7 +32,7 @@ impl Monitor for C09 {
         if tier == Tier::Sanitizer {
             vec!["tx_judged"]
         } else {
-            vec!["tx_judged", "join_tx_judged", "linkadr_acked", "newchannel_created", "channel_deleted", "cflist_applied", "power_commanded", "backoff_burst", "bias_join", "tx_on_500k"]
+            vec!["tx_judged", "join_tx_judged", "linkadr_acked", "newchannel_created", "channel_deleted", "cflist_applied", "power_commanded", "backoff_burst", "bias_join", "tx_on_500k", "rejoined"]
         }
     }
 
@@ -56,6 +56,8 @@ enum Step {
     SetDr(u8),
     Silent(u32),
     Send,
+    /// OTAA join from the joined state; the accept carries no CFList (or the given one)
+    Rejoin(Option<[u8; 16]>),
 }
 
 fn gen_linkadr(reg: Reg, rng: &mut Prng) -> Vec<u8> {
@@ -85,7 +87,26 @@ fn gen_history(reg: Reg, rng: &mut Prng) -> Vec<Step> {
     let (lo, hi) = reg.inner_band();
     let mut v = vec![];
     for _ in 0..n {
-        let s = match rng.below(10) {
+        let s = match rng.below(11) {
+            10 => {
+                let cf = if rng.chance(1, 4) {
+                    let mut b = [0u8; 16];
+                    if reg.fixed() {
+                        let m: [u8; 9] = rng.arr();
+                        b[..9].copy_from_slice(&m);
+                        b[15] = 1;
+                    } else {
+                        for i in 0..5 {
+                            let f = if rng.chance(1, 5) { 0 } else { (lo + rng.below(((hi - lo) / 100) as u64) as u32 * 100) / 100 };
+                            b[3 * i..3 * i + 3].copy_from_slice(&f.to_le_bytes()[..3]);
+                        }
+                    }
+                    Some(b)
+                } else {
+                    None
+                };
+                Step::Rejoin(cf)
+            }
             0 | 1 | 2 => Step::Mac(gen_linkadr(reg, rng), rng.bool()),
             3 | 4 => {
                 // NewChannelReq: create / delete / hostile
@@ -187,7 +208,8 @@ fn judge_tx<const PW: u8, const G: i8>(j: &TxJudge, snap: &lorawan_device::verif
     // ---- power -------------------------------------------------------------------------------------
     let mut bound = (PW as f32).min(reg.max_eirp() - G as f32);
     let mut which = if (PW as f32) <= reg.max_eirp() - G as f32 { "radio-max" } else { "max-eirp" };
-    if let Some(c) = j.cmd_eirp {
+    // (a join request opens a new session: a level commanded in the session it leaves does not bind it)
+    if let Some(c) = j.cmd_eirp.filter(|_| !join) {
         if c < bound {
             bound = c;
             which = "commanded";
@@ -303,6 +325,35 @@ fn case<const PW: u8, const G: i8>(g: &str, reg: Reg, front: Front, rng: &mut Pr
                 Step::Send => {
                     let s = link.dev.snapshot();
                     txns.push((s, link.txn(&[1], 1, false, &Script::silent())));
+                }
+                Step::Rejoin(cf) => {
+                    let s = link.dev.snapshot();
+                    let ev0 = link.dev.ev_len();
+                    let ja = JoinAcceptDesc { join_nonce: 0x31, net_id: 1, dev_addr: 0x2601_1234, dl_settings: 0, rx_delay: 1, cf_list: *cf };
+                    let w = encode_join_accept(&link.dev.creds.app_key, &ja);
+                    let resp = link.dev.transact(Action::Join, &Script::rx1(w));
+                    for e in link.dev.evs_since(ev0) {
+                        judge_tx::<PW, G>(&j, &s, &e, true, front, &hist_s, col);
+                    }
+                    if let Resp::Panic(m, l) = &resp {
+                        report_panic(reg, front, "rejoin", m, l, &hist_s, col);
+                        return;
+                    }
+                    if matches!(resp, Resp::JoinSuccess) {
+                        col.event("rejoined");
+                        let (nk, ak, addr) = link.dev.session_keys().unwrap();
+                        link.net = Net { nwk: nk, app: ak, addr };
+                        link.fdown = 0;
+                        link.up_min = 0;
+                        // a new session: no level commanded yet (the wider bound can not alarm falsely)
+                        j.cmd_eirp = None;
+                        pending_linkadr = None;
+                        // the first data frames of the new session
+                        for _ in 0..2 {
+                            let s = link.dev.snapshot();
+                            txns.push((s, link.txn(&[4], 1, false, &Script::silent())));
+                        }
+                    }
                 }
                 Step::Silent(n) => {
                     if *n > 90 {
